@@ -20,6 +20,21 @@ Record fit_problem := mkFit {
 
 Definition qidentity (k : nat) : list (list Q) := identity QOps k.
 
+(* the hypotheses of the whitened optimality theorems, checked on the matrices that are actually used: the inverse is
+   entrywise symmetric (FormProofs: hence a symmetric form) and V has positive pivots under elimination without row
+   exchanges (V positive definite, hence also its inverse; the latter implication is not proved) *)
+Definition mat_symb (W : list (list Q)) : bool :=
+  let n := length W in
+  forallb (fun i => forallb (fun j => Qeq_bool (nth j (nth i W []) 0) (nth i (nth j W []) 0)) (seq 0 n)) (seq 0 n).
+Fixpoint pivots_pos (fuel : nat) (M : list (list Q)) : bool :=
+  match fuel, M with
+  | S k, r :: rest =>
+      let p := hd 0 r in
+      if Qle_bool p 0 then false
+      else pivots_pos k (map (fun r' => tl (map2 (fun a b => Qred (b - (hd 0 r' / p) * a)) r r')) rest)
+  | _, _ => true
+  end.
+
 Definition prepare (m n : nat) (sel : list nat) (basis : list (list Q)) (sigma : option (list (list Q)))
     (data : list (list (option Q))) : option fit_problem :=
   let k := length sel in
@@ -29,8 +44,9 @@ Definition prepare (m n : nat) (sel : list nat) (basis : list (list Q)) (sigma :
     let sb := map strip bs in let sd := map strip data in
     if whitened_method (fmeth m) then
       let Sg := match sigma with Some s => s | None => qidentity k end in
-      match minv QOps (v_masked QOps k Sg mask) with
-      | Some Wi => Some (mkFit sb sd (Some Wi) (length (hd [] sb)))
+      let V := v_masked QOps k Sg mask in
+      match minv QOps V with
+      | Some Wi => if mat_symb Wi && pivots_pos (length V) V then Some (mkFit sb sd (Some Wi) (length (hd [] sb))) else None
       | None => None
       end
     else Some (mkFit sb sd None (length (hd [] sb)))
